@@ -455,56 +455,107 @@ func ruleR06_2(c *Check) {
 	var k keyer
 	for _, name := range []string{"badger.DB.writeToLSM", "badger.sortedWriter.handleRequests"} {
 		f := w.F(name)
-		f.walkDeep(func(own *Fn, n ast.Node) bool {
-			cl, ok := n.(*ast.CompositeLit)
-			if !ok || !isNamedType(w.TypeOf(cl), "ValueStruct") {
-				return true
-			}
-			inline := -1
-			for _, g := range w.Guards(own, cl) {
+		// the Value and Meta a branch stores: keys of a ValueStruct literal, or assignments to the
+		// fields of a ValueStruct variable (`vs.Value = …; vs.Meta = …`), grouped by the branch of
+		// the threshold decision they are under
+		type stored struct {
+			val, meta ast.Expr
+			at        ast.Node
+		}
+		branches := map[int]*stored{}
+		branchOf := func(own *Fn, n ast.Node) int {
+			for _, g := range w.Guards(own, n) {
 				if call, ok := g.Cond.(*ast.CallExpr); ok && w.Callee(call) == skip {
 					if g.Val {
-						inline = 1
-					} else {
-						inline = 0
+						return 1
+					}
+					return 0
+				}
+			}
+			return -1
+		}
+		record := func(own *Fn, at ast.Node, val, meta ast.Expr) {
+			if val == nil && meta == nil {
+				return
+			}
+			b := branchOf(own, at)
+			if b < 0 {
+				r.Check(false, f, k.key("ValueStruct built outside the threshold decision", w, at), at, "the Value/Meta of a ValueStruct is set without being under skipVlogAndSetThreshold")
+				return
+			}
+			st := branches[b]
+			if st == nil {
+				st = &stored{at: at}
+				branches[b] = st
+			}
+			if val != nil {
+				st.val = val
+			}
+			if meta != nil {
+				st.meta = meta
+			}
+		}
+		vsValue, vsMeta := w.Field("y.ValueStruct.Value"), w.Field("y.ValueStruct.Meta")
+		f.walkDeep(func(own *Fn, n ast.Node) bool {
+			switch x := n.(type) {
+			case *ast.CompositeLit:
+				if !isNamedType(w.TypeOf(x), "ValueStruct") {
+					return true
+				}
+				var val, meta ast.Expr
+				for _, el := range x.Elts {
+					kv, ok := el.(*ast.KeyValueExpr)
+					if !ok {
+						continue
+					}
+					if id, ok := kv.Key.(*ast.Ident); ok {
+						switch id.Name {
+						case "Value":
+							val = kv.Value
+						case "Meta":
+							meta = kv.Value
+						}
+					}
+				}
+				record(own, x, val, meta)
+			case *ast.AssignStmt:
+				if len(x.Lhs) != len(x.Rhs) {
+					return true
+				}
+				for i, l := range x.Lhs {
+					switch w.fieldOf(l) {
+					case vsValue:
+						record(own, x, x.Rhs[i], nil)
+					case vsMeta:
+						record(own, x, nil, x.Rhs[i])
 					}
 				}
 			}
-			if inline < 0 {
-				r.Check(false, f, k.key("ValueStruct built outside the threshold decision", w, cl), cl, "a ValueStruct is stored without being under skipVlogAndSetThreshold")
-				return true
-			}
-			var val, meta ast.Expr
-			for _, el := range cl.Elts {
-				kv := el.(*ast.KeyValueExpr)
-				switch kv.Key.(*ast.Ident).Name {
-				case "Value":
-					val = kv.Value
-				case "Meta":
-					meta = kv.Value
-				}
-			}
-			if val == nil || meta == nil {
-				r.Check(false, f, k.key("ValueStruct fields", w, cl), cl, "Value or Meta not set")
-				return true
-			}
-			mb, _ := unparen(w.from(meta)).(*ast.BinaryExpr)
-			// every other bit of the entry's meta (delete, merge, discard-earlier, transaction bits) is
-			// carried over: the expression is exactly entry.meta with the pointer bit set / cleared
-			metaF := w.Field("badger.Entry.meta")
-			isBit := func(e ast.Expr) bool {
-				id, ok := unparen(e).(*ast.Ident)
-				return ok && w.Use(id) == bit
-			}
-			if inline == 1 {
-				okv := w.fieldOf(val) == w.Field("badger.Entry.Value") && mb != nil && mb.Op == token.AND_NOT && isBit(mb.Y) && w.fieldOf(mb.X) == metaF
-				r.Check(okv, f, k.key("inline branch: value itself, pointer bit cleared", w, cl), cl, "inline branch stores "+short(w, val)+" with meta "+short(w, meta)+" (expected entry.meta &^ bitValuePointer: all other bits kept)")
-			} else {
-				okv := w.isCallTo(val, enc) && mb != nil && mb.Op == token.OR && ((isBit(mb.Y) && w.fieldOf(mb.X) == metaF) || (isBit(mb.X) && w.fieldOf(mb.Y) == metaF))
-				r.Check(okv, f, k.key("pointer branch: encoded pointer, pointer bit set", w, cl), cl, "pointer branch stores "+short(w, val)+" with meta "+short(w, meta)+" (expected entry.meta | bitValuePointer: all other bits kept)")
-			}
 			return true
 		})
+		metaF := w.Field("badger.Entry.meta")
+		isBit := func(e ast.Expr) bool {
+			id, ok := unparen(e).(*ast.Ident)
+			return ok && w.Use(id) == bit
+		}
+		for _, inline := range []int{1, 0} {
+			st := branches[inline]
+			if st == nil || st.val == nil || st.meta == nil {
+				r.Check(false, f, "both branches of the threshold decision store Value and Meta", nil, "Value or Meta not set in the "+map[int]string{1: "inline", 0: "pointer"}[inline]+" branch")
+				continue
+			}
+			val, meta := st.val, st.meta
+			// every other bit of the entry's meta (delete, merge, discard-earlier, transaction bits) is
+			// carried over: the expression is exactly entry.meta with the pointer bit set / cleared
+			mb, _ := unparen(w.from(meta)).(*ast.BinaryExpr)
+			if inline == 1 {
+				okv := w.fieldOf(val) == w.Field("badger.Entry.Value") && mb != nil && mb.Op == token.AND_NOT && isBit(mb.Y) && w.fieldOf(mb.X) == metaF
+				r.Check(okv, f, k.key("inline branch: value itself, pointer bit cleared", w, st.at), st.at, "inline branch stores "+short(w, val)+" with meta "+short(w, meta)+" (expected entry.meta &^ bitValuePointer: all other bits kept)")
+			} else {
+				okv := w.isCallTo(w.from(val), enc) && mb != nil && mb.Op == token.OR && ((isBit(mb.Y) && w.fieldOf(mb.X) == metaF) || (isBit(mb.X) && w.fieldOf(mb.Y) == metaF))
+				r.Check(okv, f, k.key("pointer branch: encoded pointer, pointer bit set", w, st.at), st.at, "pointer branch stores "+short(w, val)+" with meta "+short(w, meta)+" (expected entry.meta | bitValuePointer: all other bits kept)")
+			}
+		}
 	}
 	// readers: every valuePointer.Decode of an item/value-struct payload is under the bit
 	dec := w.Func("badger.valuePointer.Decode")
